@@ -21,20 +21,27 @@ func c05R9(h H) {
 	}
 	type hostCase struct {
 		avail []bool
-		rank  []int // in-flight rank, least_conn only
+		rank  []int  // in-flight rank, least_conn only
+		full  []bool // an unavailable host is at its connection cap (instead of unhealthy)
 	}
 	mkHosts := func(t types.Type, c hostCase) aslice {
 		var sl aslice
 		for i := range c.avail {
 			i := i
 			sl.elems = append(sl.elems, &aobj{name: fmt.Sprintf("host%d", i), typ: t, f: map[string]aval{}, in: func(o *aobj, path string, t types.Type) aval {
+				atCap := !c.avail[i] && c.full != nil && c.full[i]
 				switch path {
 				case "Unhealthy":
-					if c.avail[i] {
+					if c.avail[i] || atCap {
 						return aint(0)
 					}
 					return aint(1)
-				case "Fails", "MaxConns", "MaxFails":
+				case "MaxConns":
+					if atCap {
+						return asym{fmt.Sprintf("cap%d", i)}
+					}
+					return aint(0)
+				case "Fails", "MaxFails":
 					return aint(0)
 				case "Conns":
 					return asym{fmt.Sprintf("v%d", i)}
@@ -71,6 +78,32 @@ func c05R9(h H) {
 					return 1, true
 				}
 				return 0, true
+			}
+			// a host at its cap: in-flight count equals the cap, which is positive
+			capIdx := func(v aval) (int, bool) {
+				s, ok := v.(asym)
+				if !ok || !strings.HasPrefix(s.name, "cap") {
+					return 0, false
+				}
+				var i int
+				_, err := fmt.Sscanf(s.name, "cap%d", &i)
+				return i, err == nil
+			}
+			if i, ok := capIdx(b); ok && oka && ra == i {
+				return 0, true
+			}
+			if i, ok := capIdx(a); ok && okb && rb == i {
+				return 0, true
+			}
+			if _, ok := capIdx(a); ok {
+				if z, isZ := b.(aint); isZ && z == 0 {
+					return 1, true
+				}
+			}
+			if _, ok := capIdx(b); ok {
+				if z, isZ := a.(aint); isZ && z == 0 {
+					return -1, true
+				}
 			}
 			// in-flight counts are far below the sentinel the search starts from
 			if oka {
@@ -111,12 +144,33 @@ func c05R9(h H) {
 		}
 		return out
 	}
+	// every availability mask, each unavailable host being either unhealthy or at its cap
+	hostCases := func(n int) []hostCase {
+		var out []hostCase
+		for _, av := range masks(n) {
+			out = append(out, hostCase{avail: av})
+			anyDown := false
+			for _, a := range av {
+				anyDown = anyDown || !a
+			}
+			if anyDown {
+				full := make([]bool, n)
+				for i := range full {
+					full[i] = true
+				}
+				out = append(out, hostCase{avail: av, full: full})
+			}
+		}
+		return out
+	}
 	descCase := func(c hostCase) string {
 		var p []string
 		for i, a := range c.avail {
 			s := fmt.Sprintf("host%d:", i)
 			if a {
 				s += "up"
+			} else if c.full != nil && c.full[i] {
+				s += "at-cap"
 			} else {
 				s += "down"
 			}
@@ -136,18 +190,15 @@ func c05R9(h H) {
 		}
 		return -1
 	}
-	type policy struct {
-		name string
-		fn   *ssa.Function
-	}
 	get := func(name string) *ssa.Function { return h.fn("R9", pxPkg, name) }
 
 	// first
 	if fn := get("(*First).Select"); fn != nil {
 		bad, nrun := "", 0
-		for n := 1; n <= 4 && bad == ""; n++ {
-			for _, av := range masks(n) {
-				c := hostCase{avail: av}
+		for n := 1; n <= 5 && bad == ""; n++ {
+			for _, c := range hostCases(n) {
+				c := c
+				av := c.avail
 				env := newEnv(c, 0)
 				env.runForks(fn, func() []aval {
 					return []aval{aptr{&aobj{name: "policy", typ: fn.Params[0].Type().(*types.Pointer).Elem(), f: map[string]aval{}}, ""}, mkHosts(hostT(fn, 1), c), aunk{"request"}}
@@ -171,10 +222,11 @@ func c05R9(h H) {
 	// hostByHashing
 	if fn := get("hostByHashing"); fn != nil {
 		bad, nrun := "", 0
-		for n := 1; n <= 4 && bad == ""; n++ {
-			for _, av := range masks(n) {
+		for n := 1; n <= 5 && bad == ""; n++ {
+			for _, c := range hostCases(n) {
+				c := c
+				av := c.avail
 				for hv := int64(0); hv < int64(2*n+1) && bad == ""; hv++ {
-					c := hostCase{avail: av}
 					env := newEnv(c, hv)
 					env.runForks(fn, func() []aval { return []aval{mkHosts(hostT(fn, 0), c), astr("key")} }, func(res aval, und string, _ int) bool {
 						nrun++
@@ -259,10 +311,11 @@ func c05R9(h H) {
 	if fn := get("(*RoundRobin).Select"); fn != nil {
 		bad, nrun := "", 0
 		polT := fn.Params[0].Type().(*types.Pointer).Elem()
-		for n := 1; n <= 4 && bad == ""; n++ {
-			for _, av := range masks(n) {
+		for n := 1; n <= 5 && bad == ""; n++ {
+			for _, c := range hostCases(n) {
+				c := c
+				av := c.avail
 				for r0 := int64(0); r0 < int64(n) && bad == ""; r0++ {
-					c := hostCase{avail: av}
 					env := newEnv(c, 0)
 					env.noFork = true
 					pol := &aobj{name: "policy", typ: polT, f: map[string]aval{"robin": aint(r0)}}
@@ -301,6 +354,195 @@ func c05R9(h H) {
 			}
 		}
 		r.Check(bad == "", "R9", "(*proxy.RoundRobin).Select/table", fn.Pos(), "round_robin returns the next available backend after its counter; with all n backends available, n consecutive selections return n different backends (an even rotation)", fmt.Sprintf("%d evaluations", nrun), bad)
+	}
+	// --- the policies that key by a request attribute, and the upstream's own Select
+	reqT := func(fn *ssa.Function, param int) types.Type { return fn.Params[param].Type().(*types.Pointer).Elem() }
+	hashEnv := func(c hostCase) (*absEnv, map[string]int64) {
+		slots := map[string]int64{}
+		env := newEnv(c, 0)
+		inner := env.ext
+		env.ext = func(callee string, args []aval) (aval, bool) {
+			if strings.HasSuffix(callee, "proxy.hash") {
+				k, _ := keyOf(args[0])
+				if _, ok := slots[k]; !ok {
+					slots[k] = int64(len(slots)) // different keys start at different slots (the adversarial hash)
+				}
+				return aint(slots[k]), true
+			}
+			return inner(callee, args)
+		}
+		return env, slots
+	}
+	allUp := func(n int) []bool {
+		a := make([]bool, n)
+		for i := range a {
+			a[i] = true
+		}
+		return a
+	}
+	mkReq := func(t types.Type, remote aval, uri aval, hdr map[string]aval) aval {
+		o := &aobj{name: "request", typ: t, f: map[string]aval{}}
+		o.in = func(o *aobj, path string, t types.Type) aval {
+			switch path {
+			case "RemoteAddr":
+				return remote
+			case "RequestURI":
+				return uri
+			case "Header":
+				m := amap{&amapData{vals: map[string]aval{}, keys: map[string]aval{}, typ: underlying(t).(*types.Map)}}
+				for k, v := range hdr {
+					m.m.vals["s:"+k] = newVals([]aval{v}, types.Typ[types.String])
+					m.m.keys["s:"+k] = astr(k)
+				}
+				return m
+			}
+			return aunk{"request field " + path}
+		}
+		return aptr{o, ""}
+	}
+	polObj := func(fn *ssa.Function, fields map[string]aval) aval {
+		o := &aobj{name: "policy", typ: fn.Params[0].Type().(*types.Pointer).Elem(), f: map[string]aval{}}
+		for k, v := range fields {
+			o.f[k] = v
+		}
+		return aptr{o, ""}
+	}
+	// same key, same backend; the key is the documented request attribute
+	type keyed struct {
+		name  string
+		same  [][2]aval // pairs of requests that must be sent to the same backend
+		differ [][2]aval // pairs that the adversarial hash sends to different start slots (so the key really is used)
+		fields map[string]aval
+	}
+	if fn := get("(*IPHash).Select"); fn != nil {
+		t := reqT(fn, 2)
+		ip4 := func(port string) aval { return mkReq(t, strOf(atom{sym: "ip4"}, atom{lit: ":" + port}), astr("/"), nil) }
+		ip6 := func(port string) aval { return mkReq(t, strOf(atom{lit: "["}, atom{sym: "ip6"}, atom{lit: "]:" + port}), astr("/"), nil) }
+		other := mkReq(t, strOf(atom{sym: "other"}, atom{lit: ":1000"}), astr("/"), nil)
+		bad, nrun := "", 0
+		for n := 2; n <= 3 && bad == ""; n++ {
+			c := hostCase{avail: allUp(n)}
+			for _, pair := range [][2]aval{{ip4("1000"), ip4("2000")}, {ip6("1000"), ip6("2000")}} {
+				env, _ := hashEnv(c)
+				hosts := mkHosts(hostT(fn, 1), c)
+				r1, u1 := env.run(fn, []aval{polObj(fn, nil), hosts, pair[0]})
+				r2, u2 := env.run(fn, []aval{polObj(fn, nil), hosts, pair[1]})
+				r3, u3 := env.run(fn, []aval{polObj(fn, nil), hosts, other})
+				nrun += 3
+				g1, ok1 := hostIdx(r1)
+				g2, ok2 := hostIdx(r2)
+				g3, ok3 := hostIdx(r3)
+				switch {
+				case u1+u2+u3 != "" || !ok1 || !ok2 || !ok3:
+					bad = fmt.Sprintf("%d backends: undecided %s %s %s", n, u1, u2, u3)
+				case g1 != g2:
+					bad = fmt.Sprintf("%d backends, all available: two connections of one client address (different source ports) go to hosts %d and %d", n, g1, g2)
+				case g1 == g3:
+					bad = fmt.Sprintf("%d backends: a different client address is not hashed differently (the key is not the client address)", n)
+				}
+			}
+		}
+		r.Check(bad == "", "R9", "(*proxy.IPHash).Select/table", fn.Pos(), "ip_hash sends every connection of one client address (IPv4 or bracketed IPv6, any source port) to the same backend, and keys by that address", fmt.Sprintf("%d evaluations", nrun), bad)
+	}
+	if fn := get("(*URIHash).Select"); fn != nil {
+		t := reqT(fn, 2)
+		bad, nrun := "", 0
+		for n := 2; n <= 3 && bad == ""; n++ {
+			c := hostCase{avail: allUp(n)}
+			env, _ := hashEnv(c)
+			hosts := mkHosts(hostT(fn, 1), c)
+			a1 := mkReq(t, strOf(atom{sym: "ipA"}, atom{lit: ":1"}), symLabel("uri1"), nil)
+			a2 := mkReq(t, strOf(atom{sym: "ipB"}, atom{lit: ":2"}), symLabel("uri1"), nil)
+			b := mkReq(t, strOf(atom{sym: "ipA"}, atom{lit: ":1"}), symLabel("uri2"), nil)
+			r1, u1 := env.run(fn, []aval{polObj(fn, nil), hosts, a1})
+			r2, u2 := env.run(fn, []aval{polObj(fn, nil), hosts, a2})
+			r3, u3 := env.run(fn, []aval{polObj(fn, nil), hosts, b})
+			nrun += 3
+			g1, _ := hostIdx(r1)
+			g2, _ := hostIdx(r2)
+			g3, _ := hostIdx(r3)
+			if u1+u2+u3 != "" || g1 != g2 || g1 == g3 {
+				bad = fmt.Sprintf("%d backends: same URI -> hosts %d,%d; other URI -> host %d %s%s%s", n, g1, g2, g3, u1, u2, u3)
+			}
+		}
+		r.Check(bad == "", "R9", "(*proxy.URIHash).Select/table", fn.Pos(), "uri_hash sends requests for one URI to the same backend whoever sends them, and keys by the URI", fmt.Sprintf("%d evaluations", nrun), bad)
+	}
+	if fn := get("(*Header).Select"); fn != nil {
+		t := reqT(fn, 2)
+		bad, nrun := "", 0
+		names := newVals([]aval{astr("X-Key")}, types.Typ[types.String])
+		for n := 2; n <= 3 && bad == ""; n++ {
+			c := hostCase{avail: allUp(n)}
+			env, _ := hashEnv(c)
+			hosts := mkHosts(hostT(fn, 1), c)
+			a1 := mkReq(t, astr("1.1.1.1:1"), astr("/a"), map[string]aval{"X-Key": symLabel("k1")})
+			a2 := mkReq(t, astr("2.2.2.2:2"), astr("/b"), map[string]aval{"X-Key": symLabel("k1")})
+			b := mkReq(t, astr("1.1.1.1:1"), astr("/a"), map[string]aval{"X-Key": symLabel("k2")})
+			r1, u1 := env.run(fn, []aval{polObj(fn, map[string]aval{"Names": names}), hosts, a1})
+			r2, u2 := env.run(fn, []aval{polObj(fn, map[string]aval{"Names": names}), hosts, a2})
+			r3, u3 := env.run(fn, []aval{polObj(fn, map[string]aval{"Names": names}), hosts, b})
+			nrun += 3
+			g1, _ := hostIdx(r1)
+			g2, _ := hostIdx(r2)
+			g3, _ := hostIdx(r3)
+			if u1+u2+u3 != "" || g1 != g2 || g1 == g3 || g1 < 0 {
+				bad = fmt.Sprintf("%d backends: same header value -> hosts %d,%d; other value -> host %d %s%s%s", n, g1, g2, g3, u1, u2, u3)
+			}
+		}
+		r.Check(bad == "", "R9", "(*proxy.Header).Select/table", fn.Pos(), "the header policy sends requests carrying one value of the named header to the same backend, and keys by that value", fmt.Sprintf("%d evaluations", nrun), bad)
+		// no header name configured: the policy returns nil although backends are available (known finding)
+		{
+			c := hostCase{avail: allUp(2)}
+			env, _ := hashEnv(c)
+			res, und := env.run(fn, []aval{polObj(fn, map[string]aval{"Names": anil{}}), mkHosts(hostT(fn, 1), c), mkReq(t, astr("1.1.1.1:1"), astr("/"), nil)})
+			g, ok := hostIdx(res)
+			r.Check(und == "" && ok && g >= 0, "R9", "(*proxy.Header).Select/no-name-configured", fn.Pos(), "with backends available a policy must return one; `policy header` without a header name returns nil", describeAval(res), und)
+		}
+	}
+	if fn := get("(*staticUpstream).Select"); fn != nil {
+		upT := fn.Params[0].Type().(*types.Pointer).Elem()
+		first := get("(*First).Select")
+		bad, nrun := "", 0
+		for n := 1; n <= 3 && bad == ""; n++ {
+			for _, av := range masks(n) {
+				for _, withPolicy := range []bool{false, true} {
+					if withPolicy && first == nil {
+						continue
+					}
+					c := hostCase{avail: av}
+					env := newEnv(c, 0)
+					env.runForks(fn, func() []aval {
+						up := &aobj{name: "upstream", typ: upT, f: map[string]aval{"Hosts": mkHosts(hostT(first, 1), c)}}
+						if withPolicy {
+							up.f["Policy"] = aiface{aptr{&aobj{name: "first", typ: first.Params[0].Type().(*types.Pointer).Elem(), f: map[string]aval{}}, ""}, first.Params[0].Type()}
+						} else {
+							up.f["Policy"] = anil{}
+						}
+						return []aval{aptr{up, ""}, aunk{"request"}}
+					}, func(res aval, und string, _ int) bool {
+						nrun++
+						got, ok := hostIdx(res)
+						any := firstAvailFrom(av, 0)
+						good := ok && und == "" && ((any < 0 && got == -1) || (any >= 0 && got >= 0 && av[got]))
+						if good && withPolicy && any >= 0 && got != any {
+							good = false
+						}
+						if !good {
+							bad = fmt.Sprintf("%s policy=%v: want an available backend (the configured policy's choice), got %s %s", descCase(c), withPolicy, describeAval(res), und)
+							return false
+						}
+						return true
+					})
+					if bad != "" {
+						break
+					}
+				}
+				if bad != "" {
+					break
+				}
+			}
+		}
+		r.Check(bad == "", "R9", "(*proxy.staticUpstream).Select/table", fn.Pos(), "the upstream returns nil exactly when no backend is available and otherwise what its policy (random when none is configured) selects", fmt.Sprintf("%d evaluations", nrun), bad)
 	}
 }
 
